@@ -181,6 +181,44 @@ def c_solveHydroShock(chk):
     for p in sel(paths, "raise"):
         if p.exc.cls not in ("WallGoError", "ValueError"):
             chk.undecided.append(f"solveHydroShock raises {p.exc.cls}")
+    c_front_at_wall(chk)
+
+
+def c_front_at_wall(chk):
+    """Every place that asks "does the shock front sit at the wall?" uses the front condition with the sound speed of
+    the phase in front of the wall: mu(xi, v) xi = cs^2_high(T+) at xi = vw, i.e. v+ vw = cs^2_high(T+)."""
+    vw, vpT = real("vw"), real("vpTry")
+    F = {k: specfun(f"mdh_{k}") for k in ("vp", "vm", "Tp", "Tm")}
+    reg = eos_registry()
+
+    G = {k: specfun(f"lte_{k}") for k in ("vp", "vm", "Tp", "Tm")}
+
+    def deflag(it, so, args, kwargs):
+        a = list(args) + [kwargs.get("vp")] if len(args) < 2 else list(args)
+        if a[1] is None:
+            return tuple(G[k](a[0]) for k in ("vp", "vm", "Tp", "Tm"))
+        return tuple(F[k](*a) for k in ("vp", "vm", "Tp", "Tm"))
+    reg["Hydrodynamics.matchDeflagOrHyb"] = deflag
+
+    def env(it):
+        hy = make_hydro()
+        return {"self": hy, "vwTry": vw}, {"hy": hy}
+    fn = f"{HY}.findMatching.<solveVpmax>"
+    for k, q in enumerate(sel(chk.summarize_closure(MODULE, "Hydrodynamics.findMatching", "solveVpmax", env,
+                                                    lambda it, cap: ([vpT], {}), registry=reg))):
+        chk.vc(f"findMatching.solveVpmax.front-condition.{k}", q.pc + [Gt(vw, 0)],
+               Eq(q.value * vw, vpT * vw - H["csq"](F["Tp"](vw, vpT))), func=fn)
+        chk.canary(f"findMatching.solveVpmax.front-condition.{k}", q.pc + [Gt(vw, 0)],
+                   Eq(q.value * vw, vpT * vw + H["csq"](F["Tp"](vw, vpT))), func=fn)
+    # findvwLTE.<shock>(vw): v+(vw) vw - cs^2_high(T+(vw)) with the entropy matching
+    def env2(it):
+        hy = make_hydro()
+        return {"self": hy}, {"hy": hy}
+    fn2 = f"{HY}.findvwLTE.<shock>"
+    for k, q in enumerate(sel(chk.summarize_closure(MODULE, "Hydrodynamics.findvwLTE", "shock", env2,
+                                                    lambda it, cap: ([vw], {}), registry=reg))):
+        chk.vc(f"findvwLTE.shock.front-condition.{k}", q.pc,
+               Eq(q.value, G["vp"](vw) * vw - H["csq"](G["Tp"](vw))), func=fn2)
 
 
 def c_efficiency(chk):
